@@ -26,10 +26,10 @@ func init() {
 			"the reference table is the one in the property statement",
 		},
 		Rules: []RuleDef{
-			{Name: "C04-LADDER", Floor: 14, Doc: "for every adjacent pair of levels of the reference table the tighter operator's level function is strictly deeper in the operand-callee chain; '.' lies between arithmetic and ??; unary below **", Run: c04Run},
-			{Name: "C04-ASSOC", Floor: 12, Doc: "left-associative levels loop and parse their right operand with the same callee as the left; ** and assignment recurse into themselves", Run: nop},
-			{Name: "C04-ONELEVEL", Floor: 20, Doc: "each binary operator token is consumed as an infix operator at exactly one level reachable from Parse (assignment forms must all recurse into the assignment level)", Run: nop},
-			{Name: "C04-CAST", Floor: 2, Doc: "the operand of a cast and of the prefix operators is parsed at the unary level", Run: nop},
+			{Name: "C04-LADDER", Floor: 12, Doc: "for every adjacent pair of levels of the reference table the tighter operator's level function is strictly deeper in the operand-callee chain; '.' lies between arithmetic and ??; unary below **", Run: c04Run},
+			{Name: "C04-ASSOC", Floor: 6, Doc: "left-associative levels loop and parse their right operand with the same callee as the left; ** and assignment recurse into themselves", Run: nop},
+			{Name: "C04-ONELEVEL", Floor: 15, Doc: "each binary operator token is consumed as an infix operator at exactly one level reachable from Parse (assignment forms must all recurse into the assignment level)", Run: nop},
+			{Name: "C04-CAST", Floor: 1, Doc: "the operand of a cast and of the prefix operators is parsed at the unary level", Run: nop},
 			{Name: "C04-SIGNED", Floor: 1, Doc: "the branch that re-splits a signed number token hands the literal to the multiplicative level like the ordinary branch", Run: nop},
 			{Name: "C04-OPTABLE", Floor: 25, Doc: "node.NewBinaryExpression maps every infix token the ladder can pass to a constructor, distinct constructors for distinct plain operators, compound assignments reuse the plain operator's constructor; token literals are unique", Run: nop},
 		},
